@@ -2,6 +2,7 @@
    and evaluate its right-hand side -/
 import Driver.Wire
 import MxlVerif.Model.C16
+import MxlVerif.Model.C16Py
 import Driver.H_c05
 open Lean Mxl Mxl.Wire Mxl.C16
 namespace Driver.H_c16
@@ -39,7 +40,9 @@ def evalRhs (m : LinModel) (ev : Eval) : Json :=
     | s => (ev.E.lookup (render s)).getD 0
   let v : Mxl.Name → Rat := fun r => (ev.v.lookup r).getD 0
   let C : Mxl.Name → Rat := fun c => (ev.C.lookup c).getD 0
-  .arr (m.vars.map fun kv => Json.arr #[.str (render kv.1), ratJ (linRhs m.rxns E v C kv.1)]).toArray
+  match linRhsChecked m.rxns E v C with
+  | none => Json.mkObj [("err", Json.arr #[.str "ZeroDivisionError"])]
+  | some f => .arr (m.vars.map fun kv => Json.arr #[.str (render kv.1), ratJ (f kv.1)]).toArray
 
 def parseSlot (s : String) : Except String Slot :=
   if s == "EXT" then .ok .ext
